@@ -403,6 +403,14 @@ def build_scripts(shapes, ushapes, dims, tier, seed, T):
         if u in bg:
             sc["bg"] = True
         scripts.append(sc)
+    # One client of a UDP REMOTE that stays silent for two idle timeouts (the client's own table of UDP peers is swept by a
+    # timer of that period, so only then is its entry certainly gone) and then speaks again: it must still get its replies.
+    # It runs on a UDP remote of its own, in the background of everything else.
+    sid += 1
+    lone = dict(ev="script", id=sid, proto="udp", mode="udp", assoc="own", remote=2, bg=True, idle_ms=20300,
+                clients=[dict(dgrams=[dims["udp"]["small"][0], dict(idle=True), dims["udp"]["small"][1 % len(dims["udp"]["small"])], dims["udp"]["small"][0]])],
+                replies=[dims["udp"]["small"][0]])
+    scripts.append(lone)
     # the background exchanges are started first, so that their waiting overlaps with everything else
     scripts = [s for s in scripts if s.get("bg")] + [s for s in scripts if not s.get("bg")]
     return scripts
